@@ -496,6 +496,13 @@ func lazy(prefix []byte, fillKind int) string {
 		line = "<p>text outside pre</p>\n"
 	}
 	unit := []byte(strings.Repeat(line, 64) + "<pre>QUJD</pre>\n")
+	wait := 8 * time.Second
+	if fillKind == 3 {
+		// the remainder stays INSIDE the pre element the prefix opened: words separated by inner markup, for ever (every
+		// text token is short, the element never ends); a decoder that keeps an element until its end tag never answers
+		unit = []byte(strings.Repeat("QUJD<br>\n", 64))
+		wait = 3 * time.Second
+	}
 	src := &endlessReader{prefix: prefix, unit: unit}
 	base, bw0 := runtime.NumGoroutine(), blockedWriters()
 	type res struct {
@@ -528,7 +535,7 @@ func lazy(prefix []byte, fillKind int) string {
 		} else {
 			out = "first=data consumed=" + bucket
 		}
-	case <-time.After(8 * time.Second):
+	case <-time.After(wait):
 		c := atomic.LoadInt64(&src.consumed)
 		out = "first=none consumed=" + strconv.FormatInt(c>>20, 10) + "MiB-and-growing"
 	}
